@@ -380,6 +380,7 @@ func areaCff(c *Ctx) {
 	c13GenBlueGaps(c)
 	c13GenLargeWidths(c)
 	c13GenRound7(c)
+	c13GenAngles(c)
 }
 
 // mutate returns a damaged copy of data (truncation, bit flip, byte overwrite, count inflation).
@@ -3290,5 +3291,87 @@ func c13GenRound7(c *Ctx) {
 			c.Stat("name_index_body", fmt.Sprint(nl))
 			c13EmitFont(c, f, true)
 		}
+	}
+}
+
+// ---------------------------------------------------------------------------------------
+// round 8: ItalicAngle far outside [-180, 180) - Read normalises it; a second Write/Read must not move it
+
+func init() {
+	// Write, Read, Write, Read on the real code: the second round trip must reproduce the first and the
+	// angle must lie in [-180, 180).  The Lean side answers "stable".
+	ops["cff.file.rt2"] = func(f Fields) string {
+		return c13Guard(func() string {
+			d := c13ParseFont(f["font"])
+			var buf bytes.Buffer
+			if err := d.build().Write(&buf); err != nil {
+				return "write-" + c13Err(err)
+			}
+			g1, err := cff.Read(bytes.NewReader(buf.Bytes()))
+			if err != nil {
+				return "read-" + c13Err(err)
+			}
+			s1 := c13Summary(g1, d.encoding != nil, d.full)
+			var buf2 bytes.Buffer
+			if err := g1.Write(&buf2); err != nil {
+				return "write2-" + c13Err(err)
+			}
+			g2, err := cff.Read(bytes.NewReader(buf2.Bytes()))
+			if err != nil {
+				return "read2-" + c13Err(err)
+			}
+			s2 := c13Summary(g2, d.encoding != nil, d.full)
+			a1, a2 := g1.FontInfo.ItalicAngle, g2.FontInfo.ItalicAngle
+			if s1 != s2 {
+				return fmt.Sprintf("unstable: angle %s then %s", c13Real9(a1), c13Real9(a2))
+			}
+			if !(a1 >= -180 && a1 < 180) {
+				return fmt.Sprintf("not normalised: angle %s", c13Real9(a1))
+			}
+			return "stable"
+		})
+	}
+}
+
+func c13GenAngles(c *Ctx) {
+	r := c.Rng
+	angles := []float64{540, -540, 541, -541, 539.5, -539.5, 720, -720, 900, 1000, -1000, 1e4, -1e4, 1e6, -1e6, 123456.75, -2000.25,
+		1000.5, 360, -360, 180, -180, 181, -181, 179.5, -179.5, 200, -350, 359.75, 1080, 1259.5, -899.25, 65536, 0.5}
+	for i, a := range angles {
+		for _, nFD := range []int{0, 2} {
+			if nFD == 2 && c.Tier != "thorough" && i%2 == 1 {
+				continue
+			}
+			f := c13SweepFont(r, [5]int{4, 2, 0, 0, 0}, nFD, 2)
+			for p := range f.privs {
+				f.privs[p] = c13Priv{bs: 7, bf: 1, bscale: 0.039625}
+			}
+			f.angle = a
+			desc := f.String()
+			switch {
+			case math.Abs(a) >= 540:
+				c.Stat("italic_angle_far", ">= 540")
+			case a >= 180 || a < -180:
+				c.Stat("italic_angle_far", "outside [-180,180)")
+			default:
+				c.Stat("italic_angle_far", "inside")
+			}
+			c.Case(Direct, "cff.file.rt2", "font="+desc, true)
+			if cs, dw, nw, err := cff.VerifEncodeCharStrings(f.build()); err == nil {
+				c.Case(Verdict, "cff.file.model", fmt.Sprintf("font=%s cs=%s dw=%d nw=%d", desc, c13ShowBlobs(cs), int32(dw), int32(nw)), true)
+			}
+			out := Exec("cff.file.write font=" + desc)
+			if strings.HasPrefix(out, "ok:") {
+				// the model of Read (exact reduction modulo 360) against the real Read on the written file
+				c13ReadCases(c, c13HexMust(out[3:]), 1)
+			}
+		}
+	}
+	// the convergence clause on ordinary fonts as well
+	for i := 0; i < 12; i++ {
+		f := c13SweepFont(r, [5]int{r.Range(1, 40), r.Range(0, 40), 0, 0, 0}, Pick(r, []int{0, 1, 3}), r.Intn(3))
+		f.angle = float64(r.Range(-72000, 72000)) / 4
+		c.Stat("italic_angle_far", "random quarter degrees")
+		c.Case(Direct, "cff.file.rt2", "font="+f.String(), true)
 	}
 }
